@@ -83,6 +83,8 @@ func cmdSeq(args []string) {
 		progs = RandomKVPrograms(*seed, *n, *length, KVProfile{Canonical: true, Sample: 9, TickHeavy: true, ExpiryMix: true})
 	case "multidb":
 		progs = RandomKVPrograms(*seed, *n, *length, KVProfile{Canonical: true, Select: 5, Sample: 25, Dbs: []int{0, 1, 10}})
+	case "kv-extra":
+		progs = RandomKVPrograms(*seed, *n, *length, KVProfile{Canonical: true, Sample: 12, TickHeavy: true, ExpiryMix: true, Extra: 4})
 	case "multidb-swap":
 		progs = RandomKVPrograms(*seed, *n, *length, KVProfile{Canonical: true, Select: 5, Sample: 25, Swap: 12, Dbs: []int{0, 1, 10}})
 	case "hash":
